@@ -34,7 +34,7 @@ func (vc *VC) TranslateLemma(l *Lemma) (sc *Script, err error) {
 	f.curReach = BoolLit(true)
 	vars := map[string]Term{}
 	env := func() *Env {
-		e := &Env{Vars: vars, Defs: vc.cs.Defs}
+		e := &Env{Vars: vars, Defs: vc.cs.Defs, Pure: vc.pureResolverDir(l.PkgDir)}
 		e.FieldOf = func(x Term, field string) (Term, bool) { return f.fieldIn(f.cur, x, field) }
 		return e
 	}
